@@ -6,7 +6,7 @@ from ..core import *
 from ..ops import *
 from .c04 import judge
 
-IMPORTS = ('From OFV Require Import Base.Cplx Base.Lin Sem.PauliSem Sem.FermiSem Model.SymbolicOp Model.LadderOp Check.Sectors Thm.C10.NumberIndices.\n')
+IMPORTS = ('From OFV Require Import Base.Cplx Base.Lin Sem.PauliSem Sem.FermiSem Model.SymbolicOp Model.LadderOp Model.QubitOp Model.JordanWigner Model.Conjugate Thm.C01.FermiHom Check.DictEquiv Check.OpEquiv Check.Commutator Check.Sectors Thm.C10.NumberIndices.\n')
 NEEDS = ['Thm/C10/NumberOp', 'Thm/C10/NumberIndices', 'Check/Sectors']
 def cNl(l): return '(' + clist([cN(int(x)) for x in l]) + ' : list N)'
 def cmat(M): return '(' + clist(['(' + clist([cC(complex(x)) for x in row]) + ' : list C)' for row in M]) + ' : list (list C))'
@@ -81,6 +81,39 @@ def run(ctx):
             idx2 = st.jw_sz_indices(sz2 / 2.0, n, ne2)
             add('jw_sz_restrict_operator', '(restricted_matrix_ok %s %s %s %s)' % (cnat(n), cNl(idx2), coq_fop(op), cmat(np.asarray(R2.todense()).tolist())),
                 {'call': 'jw_sz_restrict_operator', 'n_qubits': n, 'sz': sz2 / 2.0, 'n_electrons': ne2, 'terms': {repr(t): repr(c) for t, c in op.terms.items()}}, key=(n, sz2, ne2, repr(op.terms)))
+    # ---- the number / spin operators themselves (hamiltonians/special_operators.py): documented expressions and su(2)
+    from openfermion.hamiltonians.special_operators import (number_operator, sz_operator, sx_operator, sy_operator, s_plus_operator, s_minus_operator, s_squared_operator, majorana_operator)
+    for n in range(1, N(5, 7)):
+        for mode in [None] + list(range(n)):
+            for cf in (1.0, float(dy(rng) or 2.0), complex(dyc(rng))):
+                for par_ in (-1, 1):
+                    if par_ == 1 and isinstance(cf, complex): continue
+                    op = number_operator(n, mode, cf, par_)
+                    spec = {((j, 1), (j, 0)): cf for j in (range(n) if mode is None else [mode])}
+                    ok_cls = isinstance(op, of.FermionOperator if par_ == -1 else of.BosonOperator)
+                    ctx.count('number_operator_expr', 1, nontrivial_key=(n, mode, repr(cf), par_))
+                    if not ok_cls or {t: complex(c) for t, c in op.terms.items()} != {t: complex(c) for t, c in spec.items()}:
+                        ctx.violation('C10 number_operator(%d, %r, %r, parity=%d) is not coefficient * sum of a+_j a_j' % (n, mode, cf, par_), {'call': 'number_operator', 'n_modes': n, 'mode': mode, 'coefficient': repr(cf), 'parity': par_, 'terms': repr(op.terms)})
+    for k in range(1, N(3, 4)):
+        sz, sx, sy, sp, sm, s2 = sz_operator(k), sx_operator(k), sy_operator(k), s_plus_operator(k), s_minus_operator(k), s_squared_operator(k)
+        szs = {}
+        for i in range(k): szs[((2 * i, 1), (2 * i, 0))] = 0.5; szs[((2 * i + 1, 1), (2 * i + 1, 0))] = -0.5
+        sps = {((2 * i, 1), (2 * i + 1, 0)): 1.0 for i in range(k)}
+        F_ = lambda d: coq_fop_terms(d)
+        add('spin_operators', '(fermi_equiv %s %s && fermi_equiv %s %s && fermi_equiv %s (hc_fermi %s) && fcomm_check %s %s (iscale %s Ci) && fcomm_check %s %s (iscale %s Ci) && fcomm_check %s %s (iscale %s Ci) && fermi_equiv %s (fmul %s %s ++ fmul %s %s ++ fmul %s %s) && fcomm_zero %s %s)' %
+            (coq_fop(sz), F_(szs), coq_fop(sp), F_(sps), coq_fop(sm), coq_fop(sp),
+             coq_fop(sx), coq_fop(sy), coq_fop(sz), coq_fop(sy), coq_fop(sz), coq_fop(sx), coq_fop(sz), coq_fop(sx), coq_fop(sy),
+             coq_fop(s2), coq_fop(sx), coq_fop(sx), coq_fop(sy), coq_fop(sy), coq_fop(sz), coq_fop(sz), coq_fop(s2), coq_fop(sz)),
+            {'call': 'sz/sx/sy/s_plus/s_minus/s_squared operators', 'n_spatial_orbitals': k}, key=k)
+    for mode in (0, 2, 5):
+        for ty, lab in ((0, 'c'), (1, 'd')):
+            cf = float(dy(rng) or 1.0)
+            for arg in ((mode, ty), '%s%d' % (lab, mode)):
+                op = majorana_operator(arg, cf)
+                spec = {((mode, 1),): cf, ((mode, 0),): cf} if ty == 0 else {((mode, 1),): 1j * cf, ((mode, 0),): -1j * cf}
+                ctx.count('majorana_operator_expr', 1, nontrivial_key=(mode, ty, repr(arg)))
+                if {t: complex(c) for t, c in op.terms.items()} != {t: complex(c) for t, c in spec.items()}:
+                    ctx.violation('C10 majorana_operator(%r) differs from its documented expression' % (arg,), {'call': 'majorana_operator', 'term': repr(arg), 'terms': repr(op.terms)})
     # ---- custom spin-orbital conventions (up_index / down_index arguments): indices, restricted operator and state
     convs = {'up_then_down': (lambda m: (lambda i: i), lambda m: (lambda i: i + m)), 'odd_up': (lambda m: (lambda i: 2 * i + 1), lambda m: (lambda i: 2 * i)),
              'down_then_up': (lambda m: (lambda i: i + m), lambda m: (lambda i: i))}
